@@ -1259,7 +1259,7 @@ def load_findings(chk):
     # build/kf-C14.json that known_findings.json does not list yet are honoured, so a new finding does not
     # turn the check red before it is merged
     p = os.path.join(vlib.VERIF, "build", "kf-C14.json")
-    if os.path.exists(p):
+    if os.path.exists(p) and os.environ.get("VERIF_KF_DEV"):  # development only: proposals not yet merged into known_findings.json
         have = {f["id"] for f in chk.findings}
         chk.findings += [f for f in json.load(open(p)) if f["id"] not in have]
 
